@@ -1,8 +1,10 @@
 SPECIFICATION Spec
 CONSTANTS
   Hash <- SHA1
-  SrvG = 7
-  SrvN <- WoWN
+  SrvG = 3
+  NNat = 7
+  SrvN <- MCSrvN
+  Creds <- MCCreds3
+  Salts = {1, 2}
 INVARIANT Inv
-POSTCONDITION PostCondition
 CHECK_DEADLOCK FALSE
